@@ -296,20 +296,55 @@ def flw2(ctx):
                 ret = [arg_name(x) for x in t["items"]]
     if not ret:
         raise AnchorMissing("parse_aliases: `Ok((a, b))` not found")
-    colour_of = {}
-    for pat, it, body, ln in for_loops(pa.hir["body"]):
+    # colour propagation: a container is coloured by the AliasKind named in the outermost loop that writes it,
+    # and by the colours of the containers mentioned in the written value (fixpoint)
+    loops = for_loops(pa.hir["body"])
+    loop_nodes = [(pat, it, body, ln, {id(x) for x in hirq.walk(body)} if body is not None else set()) for pat, it, body, ln in loops]
+    outer = [L for L in loop_nodes if not any(id(L[2]) in M[4] for M in loop_nodes if M is not L)]
+    params = set(pa.param_names)
+    colours = {}
+
+    def kinds_in(node):
+        return {(n.get("path") or "").rsplit("::", 1)[-1] for n in hirq.walk(node) if n["e"] == "path" and "alias::AliasKind::" in (n.get("path") or "")}
+
+    for pat, it, body, ln, ids in outer:
         base = expr_name(_strip_iter(it))
-        kinds = {(n.get("path") or "").rsplit("::", 1)[-1] for n in hirq.walk(body) if n["e"] == "path" and "alias::AliasKind::" in (n.get("path") or "")}
-        exts = [arg_name(n["recv"]) for n in hirq.walk(body) if n["e"] == "mcall" and n["name"] in ("extend", "push", "append")]
-        ok = len(kinds) == 1 and len(exts) == 1
-        want = {"into": "Deromaniser", "from": "Romaniser"}.get(base[-1])
-        okk = ok and kinds == {want}
-        r.inst("parse_aliases: loop over `%s` parses with %s and fills `%s`" % (base[-1], sorted(kinds), exts), fn_loc(pa, ln), "ok" if okk else "report")
-        if not okk:
-            r.report("FLW-2|parse_aliases|loop|%s" % base[-1], fn_loc(pa, ln), pa.path,
-                     "the loop over `%s` uses alias kinds %s (expected %s only) and fills %s" % (base[-1], sorted(kinds), want, exts))
-        if ok:
-            colour_of[exts[0]] = "derom" if "Deromaniser" in kinds else "rom"
+        kinds = kinds_in(body)
+        if base[0] == "local" and base[-1] in params:
+            want = {"into": "Deromaniser", "from": "Romaniser"}.get(base[-1])
+            okk = want is not None and kinds == {want}
+            r.inst("parse_aliases: loop over `%s` parses with %s" % (base[-1], sorted(kinds)), fn_loc(pa, ln), "ok" if okk else "report")
+            if not okk:
+                r.report("FLW-2|parse_aliases|loop|%s" % base[-1], fn_loc(pa, ln), pa.path,
+                         "the loop over `%s` uses alias kinds %s (expected %s only)" % (base[-1], sorted(kinds), want))
+    writes = []
+    for n in hirq.walk(pa.hir["body"]):
+        if n["e"] == "mcall" and n["name"] in ("extend", "push", "append", "insert", "extend_from_slice"):
+            rc = arg_name(n["recv"])
+            k = set()
+            for pat, it, body, ln, ids in outer:
+                if id(n) in ids:
+                    k |= kinds_in(body)
+            mentioned = {m["local"] for a in n["args"] for m in hirq.walk(a) if m["e"] == "path" and "local" in m}
+            writes.append((rc, k, mentioned))
+    changed = True
+    while changed:
+        changed = False
+        for rc, k, mentioned in writes:
+            new = set(k)
+            for m in mentioned:
+                new |= colours.get(m, set())
+            if not new <= colours.get(rc, set()):
+                colours[rc] = colours.get(rc, set()) | new
+                changed = True
+    colour_of = {}
+    for nm, ks in colours.items():
+        if ks == {"Deromaniser"}:
+            colour_of[nm] = "derom"
+        elif ks == {"Romaniser"}:
+            colour_of[nm] = "rom"
+        elif ks:
+            colour_of[nm] = "mixed"
     cols = [colour_of.get(x) for x in ret]
     ok = cols == ["derom", "rom"]
     r.inst("parse_aliases returns (deromanisers, romanisers) = (%s, %s)" % tuple(ret), fn_loc(pa), "ok" if ok else "report")
@@ -453,7 +488,7 @@ def _strip_iter(it):
 
 
 def flw3(ctx):
-    r = RuleResult("FLW-3", "tracer iterates groups and rules like the runner; Change records the group index and the phrase after that group", floor=13)
+    r = RuleResult("FLW-3", "tracer iterates groups and rules like the runner; Change records the group index and the phrase after that group", floor=19)
     lib = ctx.lib
     art = ctx.fn(lib, "asca::apply_rules_trace")
     body = art.hir["body"]
@@ -600,6 +635,46 @@ def flw3(ctx):
         r.inst("%s prints with the same rule list it parsed (%s)" % (f, a_parse), fn_loc(fb), "ok" if ok else "report")
         if not ok:
             r.report("FLW-3c|%s|same-rules" % f, fn_loc(fb), f, "parse_rule_groups gets %s but trace_to_string gets %s" % (a_parse, a_print))
+    # ---- the change detector (`res_phrase != res_step`) is structural equality down to the feature bytes
+    NOT_CONTENT = {("asca::word::Word", "americanist"): "rendering flag, not part of the word's content"}
+    for ty in ("asca::Phrase", "asca::word::Word", "asca::syll::Syllable", "asca::seg::Segment", "asca::place::Place", "asca::syll::StressKind"):
+        eqb = lib.body("<%s as core::cmp::PartialEq>::eq" % ty)
+        if eqb is None:
+            raise AnchorMissing("no PartialEq impl for %s (the tracer compares phrases with !=)" % ty)
+        if eqb.exp:
+            r.inst("%s: PartialEq is derived (field-wise)" % ty, fn_loc(eqb))
+            continue
+        adt = ctx.adt(lib, ty)
+        fields = [f["name"] for f in adt["variants"][0]["fields"]]
+        terms, bad = [], []
+
+        def conj(e):
+            e = hirq.strip(e)
+            if e.get("e") == "binary" and e["op"] == "And":
+                conj(e["a"]); conj(e["b"])
+                return
+            if e.get("e") == "block" and not e.get("stmts") and e.get("tail") is not None:
+                conj(e["tail"])
+                return
+            if e.get("e") == "binary" and e["op"] == "Eq":
+                a, b_ = expr_name(e["a"]), expr_name(e["b"])
+                if a[0] == "field" and b_[0] == "field" and a[2] == b_[2] and {a[1], b_[1]} == {("local", "self"), ("local", eqb.param_names[1])}:
+                    terms.append(a[2])
+                    return
+            bad.append(e.get("ln"))
+        conj(eqb.hir["body"])
+        missing = [f for f in fields if f not in terms and (ty, f) not in NOT_CONTENT]
+        ok = not bad and not missing
+        r.inst("%s: hand-written eq is the conjunction of %s" % (ty, terms), fn_loc(eqb), "ok" if ok else "report")
+        for f in fields:
+            if (ty, f) in NOT_CONTENT and f not in terms:
+                e_ = {"site": "%s.%s" % (ty, f), "reason": NOT_CONTENT[(ty, f)]}
+                if e_ not in r.exceptions:
+                    r.exceptions.append(e_)
+        if not ok:
+            r.report("FLW-3d|%s|eq" % ty, fn_loc(eqb), eqb.path,
+                     "equality of %s is not plain field-wise equality (%s): a group whose only effect is invisible to `==` drops out of the trace and is blamed on a later group"
+                     % (ty.rsplit("::", 1)[-1], ("fields not compared: %s" % missing) if missing else "terms other than `self.f == other.f` joined by &&"))
     return r
 
 
